@@ -1,10 +1,14 @@
 import RV.Driver.C01
+import RV.Driver.C03
 open RV.Driver
 
 def dispatch (prop op : String) (args : List String) (impl : String) : Verdict :=
   match prop with
   | "C01" => c01 op args impl
   | "C09" => c09 op args impl
+  | "C03" => c03 op args impl
+  | "C04" => c04 op args impl
+  | "C11" => c11 op args impl
   | _ => bad s!"prop:{prop}"
 
 /-- a line is `id \t prop \t op \t arg… \t => \t impl` -/
